@@ -332,7 +332,7 @@ class OpSequences(LockStep):
         out = []
         # VCF (header lines, eight columns): selections that are not a run ending at the last record, with a replaced column, written
         # (a file without header lines: with header lines the eagerly read table cannot be written at all - open finding
-        # C03-parsed-info-not-writable; the header lines a writer makes up for such a table are not compared, only the records)
+        # C03-parsed-info-not-writable)
         vcf = dict(fmt="vcf", rows=[[1, 1, 1, 1, 1, 1, 2, 2], [2, 2, 1, 1, 2, 1, 1, 1], [1, 1, 2, 1, 1, 1, 1, 3]])
         for prog in ([("ilist",), ("replace", 0), ("write",)], [("slice", 0), ("replace", 0), ("write",)], [("mask",), ("replace", 0), ("write",)],
                      [("replace", 0), ("slice", 2), ("write",)], [("replace", 0), ("mask",), ("get", 1), ("write",)], [("slice", 1), ("write",)]):
@@ -434,14 +434,7 @@ class OpSequences(LockStep):
                 elif k == "write":
                     f = ctx.wfile()
                     NpBufferedWriter(f, B).write(t)
-                    wb = ctx.file_bytes(f)
-                    if skel["fmt"] == "vcf":
-                        wb = list(wb)
-                        conc = lambda b: (not hasattr(b, "t")) and int(b) == 35
-                        while wb and conc(wb[0]):      # header lines ('#...'): not compared for VCF
-                            k_ = next(i for i, b in enumerate(wb) if not hasattr(b, "t") and int(b) == 10)
-                            wb = wb[k_ + 1:]
-                    obs.append(("written", wb))
+                    obs.append(("written", ctx.file_bytes(f)))
             except Exception as e:
                 if os.environ.get("VERIF_DEBUG"):
                     import traceback
